@@ -447,7 +447,8 @@ def run(tier):
                   'count: M<=%d, p<=4' % (7 if tier == 'quick' else 9),
                   'matching: all simple graphs on <=%d vertices' % (4 if tier == 'quick' else 5),
                   'cliquecoloring: n<=%d, k,c<=3' % (4 if tier == 'quick' else 5)]
-    run.outside = ['parameters and graphs beyond the boxes', 'networkx input objects (only cnfgen graph objects are passed)']
+    run.bounds += ["every fifth graph point is repeated with the graph given as a networkx object (reversed node/edge order, int and str 'bipartite' attributes), as a graph grown by update_vertex_number (by 2, by 3, from empty) and as a graph object with a past (refused insertions, refused bulk insertion, earlier use with one edge elsewhere)", 'size-threshold points of vlib/bigpoints.py (parameters around 10/11, 16/17, 32/33; satisfiable instances; equivalence only, 15 s solver budget, undecided ones counted as big_inconclusive)', 'one third of the points is built a second time, one third again after three calls with other arguments: all builds must agree']
+    run.outside = ['parameters and graphs beyond the boxes and the threshold points']
     run.assumptions = ['variable meaning is taken from the names reported by all_variable_labels() (alignment is C11)',
                        'z3 4.x/5.x Pb constraints and Int arithmetic are sound',
                        'OPB rows are read as [(coeff,lit)..., op, degree] as documented in BaseOPB']
